@@ -117,9 +117,16 @@ class Built:
         self.log.add('tdiag')
         if _td == 'raise':
           raise KeyError('test diagnoser boom')
-        return H.Diagnosis(TR.T1, 'x', is_failure=(_td == 'fail'))
+        return H.Diagnosis(TR.T1, 'x', is_failure=(_td in ('fail', 'fail_then_ok')))
 
       self.test.add_test_diagnosers(tdiag)
+      if td == 'fail_then_ok':
+        # a second test diagnoser reports the same result again, as a mere note
+        @H.TestDiagnoser(TR)
+        def tdiag_note(rec, store):
+          return H.Diagnosis(TR.T1, 'note')
+
+        self.test.add_test_diagnosers(tdiag_note)
     self.start = self.node(cfg['start']) if cfg.get('start') else None
     if cfg.get('dut') and self.start is None:
       dut = cfg['dut']
@@ -327,7 +334,11 @@ class Built:
       # keyword values given with with_args(); a name that is also a plug
       # argument must still be bound to the plug ("plugs override extra_kwargs")
       ph = ph.with_args(**{k: v for k, v in beh['with_args'].items()})
-    if 'm' in beh:
+    if 'm' in beh and beh.get('mdim'):
+      # a dimensioned measurement (only ever left unset by the generated bodies)
+      ph = H.measures(H.Measurement('m_' + pid).with_dimensions('x').in_range(
+          0, 10, marginal_maximum=9))(ph)
+    elif 'm' in beh:
       ph = H.measures(H.Measurement('m_' + pid).in_range(
           0, 10, marginal_maximum=9))(ph)
     for di, spec in enumerate(beh.get('ds') or []):
@@ -802,9 +813,11 @@ class Model:
           if self.terminal is None:
             self.terminal = ('EXC', 'KeyError')
         else:
-          self.diagnoses.append(('T1', td == 'fail'))
-          if td == 'fail':
+          self.diagnoses.append(('T1', td in ('fail', 'fail_then_ok')))
+          if td in ('fail', 'fail_then_ok'):
             self.failure_diag = True
+          if td == 'fail_then_ok':
+            self.diagnoses.append(('T1', False))
     out = self.finish()
     details = []
     t = self.terminal
